@@ -233,16 +233,23 @@ func gen(r *hv.Rng, i int, tier string) (string, hv.Val) {
 	case 1:
 		ins(r.Pick([]string{"Content-Length", "content-length"}), "3")
 	case 2, 3:
-		ins(r.Pick([]string{"Transfer-Encoding", "transfer-encoding"}), r.Pick([]string{"chunked", "Chunked", " chunked", "identity, chunked"}))
+		te := r.Pick([]string{"chunked", "Chunked", " chunked", "CHUNKED", "chunked "})
+		if r.Chance(1, 12) {
+			te = r.Pick([]string{"identity, chunked", "gzip, chunked", "chunked, chunked", "identity"}) // rejected (400)
+		}
+		ins(r.Pick([]string{"Transfer-Encoding", "transfer-encoding"}), te)
+		if r.Chance(1, 20) {
+			ins("Transfer-Encoding", "chunked") // a second Transfer-Encoding line: rejected (400)
+		}
 		if r.Chance(1, 4) {
 			ins("Content-Length", "3") // chunked trumps Content-Length
 		}
 	case 0, 4:
-		if r.Chance(1, 8) {
-			ins("Transfer-Encoding", "identity")
+		if r.Chance(1, 20) {
+			ins("Transfer-Encoding", "identity") // rejected (400)
 		}
 		if r.Chance(1, 10) {
-			ins("Content-Length", "0")
+			ins("Content-Length", r.Pick([]string{"0", "0", "0", "", "+0"})) // empty / signed: rejected (400)
 		}
 	}
 	for isWebsocketUpgrade(mode, hs) {
